@@ -245,6 +245,10 @@ def main():
         pick = sorted(rng.sample([s[0] for s in sites], min(a.n, len(sites))))
     os.makedirs(a.out, exist_ok=True)
     outp = os.path.join(a.out, a.module + '.jsonl')
+    if not a.sites and os.path.exists(outp):
+        # sites judged by an earlier run are not repeated
+        done = {json.loads(l)['site'] for l in open(outp) if l.strip()}
+        pick = [i for i in pick if i not in done]
     tally = {}
     with ThreadPoolExecutor(a.jobs) as ex, open(outp, 'a') as f:
         for r in ex.map(lambda i: judge(a.module, i, a.tier), pick):
